@@ -36,7 +36,7 @@ theorem binary_order (cfg : RunCfg) (f : Nat) (op : BinOp) (aop : ArithOp) (l r 
 
 /-- Lists of expressions (arguments, array elements) are evaluated left to right, each in the
 state its predecessor produced. -/
-theorem evalSel_cons (cfg : RunCfg) (f : Nat) (e : Expr) (rest : List (Except PanicSite Expr)) (st : State N) :
+theorem evalSel_cons (cfg : RunCfg) (f : Nat) (e : Expr) (rest : List (Except (PanicSite × Span) Expr)) (st : State N) :
     evalSel cfg (f + 1) (.ok e :: rest) st =
       (evalExpr cfg f e st).bind fun v st1 =>
         (evalSel cfg f rest st1).bind fun vs st2 => .ok (v :: vs) st2 := by
@@ -66,7 +66,7 @@ theorem and_short_circuit (cfg : RunCfg) (f : Nat) (l r : Expr) (sp : Span) (st 
 theorem and_continue (cfg : RunCfg) (f : Nat) (l r : Expr) (sp : Span) (st st1 : State N) (lv : Value N)
     (hl : evalExpr cfg f l st = .ok lv st1) (hgo : ¬ (lv = .bool false ∨ lv = .null)) :
     evalExpr cfg (f + 1) (.binary .and l r sp) st =
-      (evalExpr cfg f r st1).bind fun rv st2 => Res.ofExcept cfg (logicRhs .andRhs rv) sp st2 := by
+      (evalExpr cfg f r st1).bind fun rv st2 => Res.ofExcept cfg (logicRhs .andRhs rv) r.span st2 := by
   have : andStops lv = false := by
     cases h : andStops lv with
     | false => rfl
@@ -82,7 +82,7 @@ theorem or_short_circuit (cfg : RunCfg) (f : Nat) (l r : Expr) (sp : Span) (st s
 theorem or_continue (cfg : RunCfg) (f : Nat) (l r : Expr) (sp : Span) (st st1 : State N) (lv : Value N)
     (hl : evalExpr cfg f l st = .ok lv st1) (hgo : lv ≠ .bool true) :
     evalExpr cfg (f + 1) (.binary .or l r sp) st =
-      (evalExpr cfg f r st1).bind fun rv st2 => Res.ofExcept cfg (logicRhs .orRhs rv) sp st2 := by
+      (evalExpr cfg f r st1).bind fun rv st2 => Res.ofExcept cfg (logicRhs .orRhs rv) r.span st2 := by
   have : orStops lv = false := by
     cases h : orStops lv with
     | false => rfl
@@ -134,7 +134,7 @@ theorem loop_unroll (cfg : RunCfg) (f : Nat) (c : Expr) (b : Block) (sid : Optio
 
 /-- The loop statement is the loop. -/
 theorem loop_stmt (cfg : RunCfg) (f : Nat) (c : Expr) (b : Block) (sid : Option Nat) (sp : Span) (st : State N) :
-    execStmt cfg (f + 1) (.loop c b sid sp) st = loopW cfg f c b sp st := by
+    execStmt cfg (f + 1) (.loop c b sid sp) st = loopW cfg f c b c.span st := by
   simp only [execStmt]
 
 /-! ### Calls -/
